@@ -148,18 +148,25 @@ Theorem C07_expired_key_refused : forall evs k,
 Proof. exact expired_key_refused. Qed.
 Print Assumptions C07_expired_key_refused.
 
-(* Sending under a live current key: all staged packets go out under it, and a handshake is started
-   exactly when the key is initiator-made, older than 120 s, and the 5 s spacing allows. *)
-Theorem C07_initiator_rekeys_after_120_send : forall evs k,
+(* Sending -- a data packet from the TUN or a keepalive-only transmission (is_send e) -- under a live
+   current key: everything staged goes out under it, and a handshake is started exactly when the key is
+   initiator-made, older than 120 s, and the 5 s spacing allows. *)
+Theorem C07_initiator_rekeys_after_120_send : forall evs k e,
   let s := R evs in
+  is_send e ->
   cur s = Some k -> now s + 1 - created k < reject_after_time ->
-  let s' := fst (step s Send) in
-  let o := snd (step s Send) in
-  o_sent o = repeat (id k) (N.to_nat (staged s + 1)) /\
+  let s' := fst (step s e) in
+  let o := snd (step s e) in
+  o_sent o = repeat (id k) (N.to_nat (pending s e)) /\
   o_init o = (initiator k && (rekey_after_time <? now s + 1 - created k)) && negb (rate_limited (set_now s (now s + 1))) /\
   (o_init o = true -> hs s' = Some (nidx s) /\ honoured s' (nidx s) = true).
 Proof. exact initiator_rekeys_after_120_send. Qed.
 Print Assumptions C07_initiator_rekeys_after_120_send.
+
+Theorem C07_send_kinds : is_send Send /\ is_send Keepalive /\
+  forall s, pending s Send = staged s + 1 /\ pending s Keepalive = (if staged s =? 0 then 1 else staged s).
+Proof. repeat split; [left|right]; reflexivity. Qed.
+Print Assumptions C07_send_kinds.
 
 (* Receiving while the current key is initiator-made: past 165 s a handshake is started, once
    (latch), if the spacing allows; before 165 s or with the latch set, none. *)
@@ -181,19 +188,20 @@ Print Assumptions C07_initiator_rekeys_after_165_recv.
 Theorem C07_responder_does_not_rekey : forall evs k,
   let s := R evs in
   cur s = Some k -> initiator k = false -> now s + 1 - created k < reject_after_time ->
-  o_init (snd (step s Send)) = false /\
+  (forall e, is_send e -> o_init (snd (step s e)) = false) /\
   (forall sid, cur (fst (step s (Recv sid))) = Some k -> o_init (snd (step s (Recv sid))) = false).
 Proof. exact responder_does_not_rekey. Qed.
 Print Assumptions C07_responder_does_not_rekey.
 
 (* With no current key, or one of 180 s or more, nothing is sent; the packet stays staged and a
    handshake is started (subject to the 5 s spacing). *)
-Theorem C07_expired_current_forces_handshake : forall evs,
+Theorem C07_expired_current_forces_handshake : forall evs e,
   let s := R evs in
+  is_send e ->
   (cur s = None \/ exists k, cur s = Some k /\ reject_after_time <= now s + 1 - created k) ->
-  let s' := fst (step s Send) in
-  let o := snd (step s Send) in
-  o_sent o = [] /\ staged s' = staged s + 1 /\
+  let s' := fst (step s e) in
+  let o := snd (step s e) in
+  o_sent o = [] /\ staged s' = pending s e /\
   o_init o = negb (rate_limited (set_now s (now s + 1))) /\
   (o_init o = true -> hs s' = Some (nidx s) /\ honoured s' (nidx s) = true).
 Proof. exact expired_current_forces_handshake. Qed.
@@ -212,10 +220,10 @@ Print Assumptions C07_at_most_two_at_once.
 
 (* The executable property [holdsb] (Keypairs/Spec.v, the one evaluated on the device's observed
    traces) accepts the model's own behaviour on EVERY sequence of the property's event kinds up to
-   length 4 (slot names resolved against the state, plus Restart; 11 111 sequences), and of the extended alphabet
+   length 4 (slot names resolved against the state, plus Restart; 16 105 sequences), and of the extended alphabet
    (extra ticks, spontaneous initiation, stale response, forged message under next / current, replay)
-   up to length 3 (4 369 sequences).  The thorough tier
-   evaluates length 6 (1 111 111 sequences) / 5 (1 118 481); the quick tier keeps this file cheap.  The unbounded statement is kept as a definition, not proved.  It needs
+   up to length 3 (5 220 sequences).  The thorough tier
+   evaluates length 6 (1 116 105 sequences) / 5 (1 118 481); the quick tier keeps this file cheap.  The unbounded statement is kept as a definition, not proved.  It needs
    the harness's discipline (time moves in whole seconds, fewer than 10^9 events): [holdsb] sees ages
    in whole seconds, which cannot tell 180 s - 1 ns from 179 s -- see C07_boundary_180 below. *)
 Definition C07_model_satisfies_spec_statement : Prop :=
@@ -233,11 +241,11 @@ Example C07_boundary_180 :
   holdsb (model_trace init (CompleteInitiator 7 ++ [Tick (179 * sec); Send])) = true.
 Proof. vm_compute. repeat split; reflexivity. Qed.
 
-Theorem C07_model_satisfies_spec_depth4 : explore alphabet7 4 init sst0 = Some 11111.
+Theorem C07_model_satisfies_spec_depth4 : explore alphabet7 4 init sst0 = Some 16105.
 Proof. vm_compute. reflexivity. Qed.
 Print Assumptions C07_model_satisfies_spec_depth4.
 
-Theorem C07_model_satisfies_spec_full_depth3 : explore alphabet_full 3 init sst0 = Some 4369.
+Theorem C07_model_satisfies_spec_full_depth3 : explore alphabet_full 3 init sst0 = Some 5220.
 Proof. vm_compute. reflexivity. Qed.
 Print Assumptions C07_model_satisfies_spec_full_depth3.
 
@@ -302,6 +310,16 @@ Example C07_nonvacuous_restart :
   map (fun o => (o_acc o, o_tun o)) (outs step (final step init evs) [Recv 0; Recv 1; Respond 0 9; Send]) =
     [(false, false); (false, false); (false, false); (false, false)].
 Proof. vm_compute. repeat split; reflexivity. Qed.
+
+(* keepalive-only sends: the initiator re-keys after 120 s, the responder does not *)
+Example C07_nonvacuous_keepalive :
+  map (fun o => (o_sent o, o_init o))
+      (outs step init (CompleteInitiator 7 ++ [Keepalive; Tick (121 * sec); Keepalive; Keepalive])) =
+    [([], true); ([0], false); ([0], false); ([], false); ([0], true); ([0], false)] /\
+  map (fun o => (o_sent o, o_init o))
+      (outs step init [CompleteResponder 7; Keepalive; Recv 0; Tick (121 * sec); Keepalive; Tick (60 * sec); Keepalive]) =
+    [([], false); ([], false); ([0], false); ([], false); ([0], false); ([], false); ([], true)].
+Proof. vm_compute. split; reflexivity. Qed.
 
 Example C07_nonvacuous_spec_rejects :
   (* the checker is not vacuous: a trace in which data is sent under the unconfirmed key is rejected *)
